@@ -38,6 +38,21 @@ func execEcdh(op string, a []string) string {
 			return "err"
 		}
 		return "ok " + hx(s)
+	case "ecdh.derive2":
+		// ecdh.derive2 <local…> | <remote1…> | <remote2…>: one ECDHer, two agreements; the second is answered.
+		// Specification (history freedom): as `ecdh.derive <local> | <remote2> | same` on a fresh ECDHer.
+		lt, rest := splitBar(a)
+		r1, r2 := splitBar(rest)
+		e, err := ecdh.NewECDHer(keyFromToks(lt))
+		if err != nil {
+			return "err new"
+		}
+		e.ECDH(keyFromToks(r1))
+		s, err := e.ECDH(keyFromToks(r2))
+		if err != nil {
+			return "err"
+		}
+		return "ok " + hx(s)
 	case "ecdh.symmetric":
 		// both directions on the library: a's private with b's public and vice versa
 		at, bt := splitBar(a)
@@ -199,6 +214,15 @@ func genEcdhOps(r *rand.Rand, n int) []string {
 			after = genOpsValue(r)
 		}
 		out = append(out, fmt.Sprintf("ecdh.derive %s | %s | %s", local, remote, after))
+		if i%3 == 0 { // one ECDHer, a good remote first, then `remote` under the same kid / without kid
+			kid2 := [][]string{kidA, nil, {"int:2", "b:"}}[r.Intn(3)]
+			first := genDhKey(r, crv).tokens(r, form, kid2)
+			second := remote
+			if r.Intn(2) == 0 {
+				second = b.tokens(r, form, kid2)
+			}
+			out = append(out, fmt.Sprintf("ecdh.derive2 %s | %s | %s", local, first, second))
+		}
 		out = append(out, fmt.Sprintf("ecdh.symmetric %s | %s", a.tokens(r, r.Intn(2), kidA), b.tokens(r, r.Intn(2), kidA)))
 		out = append(out, "ecdh.topublic "+a.tokens(r, r.Intn(3), extraA), "ecdh.compress "+b.tokens(r, r.Intn(5), kidA))
 	}
